@@ -156,6 +156,43 @@ func checkC10(r *harness.Run) harness.Coverage {
 	}
 	byExprs = append(byExprs, exprFromText("map(&k, @)"), exprFromText("map(&abs(k), @)"), exprFromText("map(@, &k)"))
 	run(byExprs, arrs)
+	// (4) long arrays: one offending key at every position, for lengths around the points where sorting
+	// code changes strategy (insertion blocks of 20, small-array cut-offs at 12/16)
+	var longArrs []interface{}
+	for _, n := range []int{13, 16, 17, 21, 24, 33, 44, 64} {
+		for _, order := range []int{0, 1, 2} { // ascending, descending, constant
+			for _, badKind := range []string{`"x"`, `null`, `true`, `MISSING`} {
+				for pos := 0; pos < n; pos++ {
+					if n > 24 && pos%3 != 0 && pos != n-1 && pos != n-2 && pos != 20 && pos != 40 {
+						continue
+					}
+					a := make([]interface{}, n)
+					for i := 0; i < n; i++ {
+						k := float64(i)
+						if order == 1 {
+							k = float64(n - i)
+						} else if order == 2 {
+							k = 7
+						}
+						a[i] = map[string]interface{}{"k": k, "t": float64(i)}
+					}
+					if badKind == "MISSING" {
+						a[pos] = map[string]interface{}{"t": float64(pos)}
+					} else {
+						a[pos] = map[string]interface{}{"k": univ.J(badKind), "t": float64(pos)}
+					}
+					longArrs = append(longArrs, a)
+				}
+			}
+		}
+	}
+	var longExprs []exprCase
+	for _, fn := range []string{"sort_by", "max_by", "min_by"} {
+		longExprs = append(longExprs, exprFromText(fn+"(@, &k)"), exprFromText(fn+"(@, &abs(k))"))
+	}
+	longExprs = append(longExprs, exprFromText("map(&abs(k), @)"), exprFromText("sort_by(@, &t)[0].t"))
+	run(longExprs, longArrs)
+	r.Note("long_arrays", len(longArrs))
 	finishConform(r, total, nexpr, ndocs)
 	return harness.Coverage{Exhaustive: true, Bounds: map[string]interface{}{"names": len(names), "max_arity_exhaustive": maxAr, "by_expression_array_length": maxLen}, Outcomes: distinctOutcomes(total)}
 }
